@@ -98,7 +98,7 @@ func (m *hashmap) iter() *hashmapIter {
 		return &hashmapIter{}
 	}
 	ents := append([]*entry{}, m.ents...)
-	if m.ex != nil && m.ex.cfg.ReverseMaps {
+	if m.ex != nil && m.ex.cfg.ReverseMaps != m.ex.revMaps {
 		for i, j := 0, len(ents)-1; i < j; i, j = i+1, j-1 {
 			ents[i], ents[j] = ents[j], ents[i]
 		}
